@@ -950,6 +950,12 @@ func LastMixed() bool { return curMixed }
 
 func GenCase(r *Rng, maxDepth int, nops int) ECase {
 	reg := GenRegionSpec(r, maxDepth, true)
+	return caseOn(r, reg, maxDepth, nil, nops)
+}
+
+// caseOn: the operations [first] (chosen by the caller on the spec as generated), then [nops]
+// random ones, on the region spec [reg]; expectation by the reference semantics on the spec.
+func caseOn(r *Rng, reg *uefigen.Region, maxDepth int, first []EOp, nops int) ECase {
 	mixed := curMixed
 	img, _ := uefigen.EmitRegion(reg)
 	hasComp := RegionHasCompressed(reg)
@@ -957,9 +963,14 @@ func GenCase(r *Rng, maxDepth int, nops int) ECase {
 	var ops []EOp
 	touched := map[int]bool{}
 	errAt := -1
-	for i := 0; i < nops; i++ {
+	for i := 0; i < len(first)+nops; i++ {
 		// the next operation is chosen on the spec as edited so far
-		o := GenOp(r, reg, maxDepth)
+		var o EOp
+		if i < len(first) {
+			o = first[i]
+		} else {
+			o = GenOp(r, reg, maxDepth)
+		}
 		ops = append(ops, o)
 		if errAt < 0 && !ApplySpec(reg, o, touched) {
 			errAt = i
